@@ -103,6 +103,10 @@ class LexInfZ3(Inference):
                 # no finite layer: all feasible worlds are equally plausible
                 return False
 
+            # worlds falsifying a conditional of the infinity layer are infeasible
+            for c in self.epistemic_state["partition"][-1]:
+                opt_v.add(c.make_not_A_or_B())
+                opt_f.add(c.make_not_A_or_B())
             result = self._rec_inference(
                 opt_v, opt_f, len(self.epistemic_state["partition"]) - 2, query_z3
             )
